@@ -122,6 +122,9 @@ class Peer:
         if self.silent:
             return
         ty = f["type"]
+        if ty == "RST" and getattr(self, "ignore_rst", 0) > 0:
+            self.ignore_rst -= 1            # the NCP misses this RST altogether (busy / line glitch): no reset, no RSTACK
+            return
         if ty == "RST":
             self.rst_seen += 1
             self.rig.note({"o": "h2n", "f": {"type": "RST", "cancel": f.get("cancel", 0)}, "fault": "deliver"})
